@@ -255,6 +255,15 @@ pub fn iter_strategy(p: &Profile) -> BoxedStrategy<IterSpec> {
             4 => select(size_grid()).prop_map(Some),
         ]
         .boxed()
+    } else if p.overflow_sizes {
+        // lower bounds that no configuration can reserve (rejected before any allocation), and small honest-looking ones
+        let big: Vec<usize> = (0..=2usize).flat_map(|d| [usize::MAX - d, usize::MAX - 16 - d, (1usize << 56) + d, isize::MAX as usize - d, isize::MAX as usize + 1 + d]).collect();
+        prop_oneof![
+            5 => Just(None),
+            3 => select(big).prop_map(Some),
+            1 => (0usize..=20).prop_map(Some),
+        ]
+        .boxed()
     } else {
         Just(None).boxed()
     };
